@@ -144,6 +144,7 @@ func TestC17_P_ConcurrentReads(t *testing.T) {
 	rapid.Check(t, func(t *rapid.T) {
 		kind := rapid.SampledFrom([]string{"hamt-cold", "hamt-cold", "hamt-warm", "file", "file-oldstyle", "hamt-cold-faulty", "file-wide", "plaindir-wide"}).Draw(t, "kind")
 		st := NewStore()
+		st.Yield = rapid.Bool().Draw(t, "yieldingStore") // every load gives up the processor, as a store blocking on I/O does
 		var root cid.Cid
 		var names []string
 		var tree *ShardNode
